@@ -499,7 +499,7 @@ func c13mapping(c *an.Ctx) {
 					})
 				case "call":
 					if call, ok := v.(*ssa.Call); ok {
-						if cf := an.StaticCallee(call); cf != nil && cf.Name() == want.name {
+						if cf := an.StaticCallee(call); cf != nil && an.BaseName(cf) == want.name {
 							good = true
 						}
 						if m := an.InvokeMethod(call); m != nil && m.Name() == want.name {
@@ -600,7 +600,7 @@ func c13mapping(c *an.Ctx) {
 				case *ssa.Field:
 					fromSnap = v.X == snap && an.FName(an.FieldOf(v)) == name
 				case *ssa.UnOp:
-					if f, base := an.LoadedField(v); f != nil && f.Name() == name {
+					if f, base := an.LoadedField(v); f != nil && an.FName(f) == name {
 						fromSnap = an.OriginsAll(base, func(o ssa.Value) bool { return o == snap }) || baseIsAllocOf(base, snap)
 					}
 				}
